@@ -545,11 +545,18 @@ func ruleUpdateLoop(c *Check, rule string) {
 	for i := range paths {
 		p := &paths[i]
 		nx := callsOf(p, itNext)
+		if len(nx) == 0 && p.End == "return" {
+			bad++
+			c.Bad(rule, fnStratUpd+"/bypass", "Update returns on a path that never asks the iterator for a key (the per-key lookup and merge are bypassed)", c.pathPos(p), describe(c, p))
+			continue
+		}
 		if len(nx) != 1 {
 			continue
 		}
 		okn, f := boolCond(p, "isnil("+nx[0].Res+"#1)", -1)
 		if !f {
+			bad++
+			c.Bad(rule, fnStratUpd+"/next-error", "the error of Next is not examined", c.pathPos(p), describe(c, p))
 			continue
 		}
 		if !okn {
